@@ -21,7 +21,8 @@ RULE = ("every script-management operation (havespace, listscripts, getscript, p
         "1000 bytes, injected second commands) composed 1-3 at a time, plus values of 511..2048 "
         "octets around the 1024-octet quoted/literal switch holding 0..1024 characters that "
         "need escaping or are multi-byte, and values equal to an earlier value of the same process "
-        "or to one of its wire forms ({n+}CRLFvalue, {n}CRLFvalue, quoted-and-escaped), x sizes 0..2^63. "
+        "or to one of its wire forms ({n+}CRLFvalue, {n}CRLFvalue, quoted-and-escaped), and script "
+        "bodies sized so that the whole command is 65536 or 131072 -2..+2 octets, x sizes 0..2^63. "
         "Non-trivial = call with at least one argument; distinct = distinct (op, args).")
 ASSUMPTIONS = [
     "strict parser in rv/msmodel.py (quoted strings with only \\\\ and \\\" escapes and no "
@@ -32,9 +33,11 @@ ASSUMPTIONS = [
     "nothing written",
 ]
 FLOORS = {"quick": {"calls": 100000, "calls-with-special-values": 50000,
-                    "calls-with-boundary-length-values": 3000},
+                    "calls-with-boundary-length-values": 3000,
+                    "calls-sized-on-64KiB-multiples": 40},
           "thorough": {"calls": 9000000, "calls-with-special-values": 4000000,
-                       "calls-with-boundary-length-values": 100000}}
+                       "calls-with-boundary-length-values": 100000,
+                       "calls-sized-on-64KiB-multiples": 4000}}
 SHARD_TIMEOUT = {"quick": 600, "thorough": 3000}
 
 FRAGS = ["a", "script", "x y", '"', "\\", '\\"', "\r", "\n", "\r\n", "\x00", "{", "}", "{5}",
@@ -140,7 +143,36 @@ OPS = ["havespace", "listscripts", "getscript", "putscript", "checkscript", "del
        "renamescript", "setactive", "capability", "logout"]
 
 
+def send_boundary_call(rng):
+    """putscript / checkscript whose whole command (without the final CRLF) is k*65536 -2..+2
+    octets long: a client that writes in blocks must still terminate the command"""
+    target = rng.choice([65536, 131072]) + rng.choice([-2, -1, 0, 1, 2])
+    op = rng.choice(["putscript", "checkscript"])
+    name = rng.choice(["s", "x y", "é"])
+    fill = rng.choice(["x", "é", "# l\r\n"])
+    for n in range(target, 0, -1):
+        body = (fill * (n // len(fill.encode("utf-8")) + 1)).encode("utf-8")[:n]
+        try:
+            body.decode("utf-8")
+        except UnicodeDecodeError:
+            continue
+        head = (b'PUTSCRIPT "%s" ' % name.encode("utf-8") if op == "putscript"
+                else b"CHECKSCRIPT ") + b"{%d+}\r\n" % len(body)
+        if len(head) + len(body) == target:
+            content = body.decode("utf-8")
+            if op == "putscript":
+                return op, (name, content), ("PUTSCRIPT", [("str", name), ("str", content)])
+            return op, (content,), ("CHECKSCRIPT", [("str", content)])
+        if len(head) + len(body) < target - 8:
+            break
+    return None
+
+
 def make_call(rng):
+    if rng.random() < 0.0008:
+        c = send_boundary_call(rng)
+        if c is not None:
+            return c
     op = rng.choice(OPS)
     if op == "havespace":
         a = (value(rng), rng.choice(SIZES))
@@ -236,6 +268,9 @@ def run_shard(tier, shard, res: Result):
         if any(isinstance(a, str) and 1000 <= len(a.encode("utf-8", "surrogatepass")) <= 1030
                for a in args):
             res.count("calls-with-boundary-length-values")
+        if len(sent) > 65000:
+            res.count("calls-sized-on-64KiB-multiples")
+            res.observe("sent-sizes-mod-65536", str((len(sent) - 2) % 65536))
         res.observe("triggers", trig)
         res.observe("ops", op)
         res.case(repr((op, args)), nontrivial=bool(args))
